@@ -97,6 +97,17 @@ def run(chk):
     allb = full + sim
     indexed = list(enumerate(allb, 1))
     chk.exhaustive = True
+    flagrows = []
+    if pid == 'C04':
+        # the flag iff of every single write, through every carrier and route of the store world (FlagIff of MC_Store)
+        from . import store
+        srows, _ = chk.model_check('MC_Store.tla', 'MC_Store_C01_quick.cfg', label='MC_Store (FlagIff, small world)', must_print=True)
+        srows = [x for x in srows if x.get('k') == 'store']
+        sel = srows if tier == 'thorough' else srows[chk.seed % 3::3]
+        for part in core.parallel_map(store._exec_small, [(row, 'C04', tier, i) for i, row in enumerate(sel)], chunksize=4):
+            flagrows += part
+        for part in core.parallel_map(store._exec_wide, [(chk.seed * 1000 + i, 'C04', (320 if tier == 'quick' else 4000) // core.NPROC + 1) for i in range(core.NPROC)]):
+            flagrows += part
     sat = []
     if pid == 'C02':
         n = 320 if tier == 'quick' else 8000
@@ -108,9 +119,9 @@ def run(chk):
             obs += part
         for part in core.parallel_map(_c02_sat, sat):
             obs += part
-        return obs
+        return obs + flagrows
     from .. import suite
-    return _gen(indexed, sat, chk.seed, suite.suite_rows(pid, chk) if pid in ('C02', 'C04') else None)
+    return _gen(indexed, sat, chk.seed, (suite.suite_rows(pid, chk) if pid in ('C02', 'C04') else []) + flagrows)
 
 
 def _gen(indexed, sat, seed, extra=None):
